@@ -1,6 +1,7 @@
 import Driver.Proto
 import ScrapliModel.Netconf.Store
 import ScrapliModel.Netconf.StoreTimed
+import ScrapliModel.Netconf.StoreSubs
 namespace Driver.C08
 open Scrapli Scrapli.Netconf.Store
 
@@ -8,7 +9,7 @@ open Scrapli Scrapli.Netconf.Store
 
 * `scan <hex>` → `m10 m11 after10 after11 rpc id` : the scanners on one byte string
   (`after*` and `id` are `N` when there is no match) — diffed against Go `regexp` by the harness.
-* `sess <1.0|1.1> <script>` → `dom reasons model pending spec` where the script is a `;`-separated list of
+* `sess <1.0|1.1> <script>` → `dom reasons model pending spec subs` where the script is a `;`-separated list of
   `C` (call) `C<n>` (call whose timer is armed with n ticks) `T<n>` (n ticks pass) `P` (poll) `X` (expire) `R<hex>` (one read) `Z` (counterfactual: empty the buffer) and deliveries
   `D|E:<body>:<tail>|<chunks>`, `D|R:<to>:<body>:<tail>|<chunks>`,
   `D|ER:<ebody>:<etail>:<to>:<body>:<tail>|<chunks>` (chunks: comma separated hex, `.` = none).
@@ -31,6 +32,10 @@ inductive Item
   | tcall (timeout : Nat)
   /-- `T<n>`: `n` ticks pass -/
   | ticks (n : Nat)
+  /-- a delivery whose message may be a reply, a notification or both (`D|M:…`, `D|EM:…`) -/
+  | dlv2 (d : Delivery2)
+  /-- `G<id>`: `GetSubscriptionMessages(id)` -/
+  | get (id : Nat)
 
 def parseUnit (s : String) : Option Burst :=
   match s.splitOn ":" with
@@ -40,6 +45,13 @@ def parseUnit (s : String) : Option Burst :=
     pure (.echoReply ⟨← fromHex eb, ← fromHex et⟩ ⟨← to.toNat?, ← fromHex b, ← fromHex t⟩)
   | _ => none
 
+def parseBurst2 (s : String) : Option Burst2 :=
+  match s.splitOn ":" with
+  | ["M", to, sub, b, t] => do pure (.msgOnly ⟨← to.toNat?, ← sub.toNat?, ← fromHex b, ← fromHex t⟩)
+  | ["EM", eb, et, to, sub, b, t] => do
+    pure (.echoMsg ⟨← fromHex eb, ← fromHex et⟩ ⟨← to.toNat?, ← sub.toNat?, ← fromHex b, ← fromHex t⟩)
+  | _ => none
+
 def parseItem (s : String) : Option Item :=
   if s == "C" then some (.ev .call)
   else if s == "P" then some (.ev .poll)
@@ -47,14 +59,18 @@ def parseItem (s : String) : Option Item :=
   else if s == "Z" then some .reset
   else if s.startsWith "C" then ((s.drop 1).toString.toNat?).map .tcall
   else if s.startsWith "T" then ((s.drop 1).toString.toNat?).map .ticks
+  else if s.startsWith "G" then ((s.drop 1).toString.toNat?).map .get
   else if s.startsWith "R" then (fromHex (s.drop 1).toString).map fun b => .ev (.read b)
   else match s.splitOn "|" with
-    | ["D", u, cs] => do pure (.dlv ⟨← parseUnit u, ← hexList cs⟩)
+    | ["D", u, cs] =>
+      if u.startsWith "M:" || u.startsWith "EM:" then do pure (.dlv2 ⟨← parseBurst2 u, ← hexList cs⟩)
+      else do pure (.dlv ⟨← parseUnit u, ← hexList cs⟩)
     | _ => none
 
 def itemEvents : Item → List Ev
   | .ev e => [e]
   | .dlv d => d.chunks.map .read
+  | .dlv2 d => d.chunks.map .read
   | _ => []
 
 def runItem (v : Ver) (t : TClient) : Item → TClient
@@ -103,6 +119,9 @@ def specStep (s : SpecSt) : Item → SpecSt
     | some id => { s with pending := none, results := s.results ++ [(id, none)] }
   | .dlv d => { s with delivered := s.delivered ++ d.burst.replies }
   | .reset => s
+  | .dlv2 d => { s with delivered := s.delivered ++
+      (d.burst.msgs.filter (fun m => m.to != 0)).map fun m => ⟨m.to, m.body, m.tail⟩ }
+  | .get _ => s
 
 /-- the hypotheses of `goodReply` / `goodEcho` / `Delivery.valid` that fail, joined by `+`
 (`ok` if none) -/
@@ -120,6 +139,36 @@ def echoReason (v : Ver) (e : Echo) : String :=
   joinReasons [(!allLF e.tail, "etail"), (!containsRpcClose e.body, "erpc"),
     (!delimMatch v e.body, "enofire"), (!noEarlyFire v e.body, "eearly"),
     (!(afterFirstOpt v e.body == some []), "eafter")]
+
+def msgReason (v : Ver) (m : Msg) : String :=
+  joinReasons [(!allLF m.tail, "tail"), (containsRpcClose (m.body ++ m.tail), "rpc"),
+    (!delimMatch v m.body, "nofire"), (!noEarlyFire v m.body, "early"),
+    (m.to != 0 && msgKey m.body != m.to, "id"),
+    (m.to == 0 && msgKey m.body != 0, "nid"),
+    (subKey m.body != m.sub, "sub"),
+    (!(v == .v10 || startsLFOrEmpty m.body), "start")]
+
+def delivery2Reason (v : Ver) (d : Delivery2) : String :=
+  let r := match d.burst with
+    | .echoOnly e => echoReason v e
+    | .msgOnly m => msgReason v m
+    | .echoMsg e m => if echoReason v e != "ok" then echoReason v e else msgReason v m
+  if r != "ok" then r
+  else if !(d.chunks.flatten == d.burst.bytes) then "seg"
+  else if !d.valid v then "idle"
+  else "ok"
+
+/-- the subscription side of a session: reads of every item, `G<id>` = GetSubscriptionMessages -/
+def subEvents : Item → List SEv
+  | .ev (.read c) => [.read c]
+  | .dlv d => d.chunks.map .read
+  | .dlv2 d => d.chunks.map .read
+  | .get id => [.get id]
+  | _ => []
+
+def showGot (g : List (Nat × List Bytes)) : String :=
+  if g.isEmpty then "." else
+  ";".intercalate (g.map fun (id, ms) => s!"{id}={showHexList ms}")
 
 def deliveryReason (v : Ver) (d : Delivery) : String :=
   let r := match d.burst with
@@ -140,19 +189,21 @@ def handleC08 : List String → String
     match fromHex h with
     | some b =>
       let id := match firstId b with | some n => toString n | none => "N"
-      s!"{b2s (delimMatch .v10 b)} {b2s (delimMatch .v11 b)} {showOptBytes (afterFirstOpt .v10 b)} {showOptBytes (afterFirstOpt .v11 b)} {b2s (containsRpcClose b)} {id}"
+      s!"{b2s (delimMatch .v10 b)} {b2s (delimMatch .v11 b)} {showOptBytes (afterFirstOpt .v10 b)} {showOptBytes (afterFirstOpt .v11 b)} {b2s (containsRpcClose b)} {id} {b2s (containsSubClose b)} {match firstSubId b with | some n => toString n | none => "N"}"
     | none => "bad-op"
   | ["sess", v, script] =>
     match c08ver v, (script.splitOn ";").mapM parseItem with
     | some v, some items =>
       let dom := items.all fun it => match it with
-        | .dlv d => d.valid v | .ev (.read _) => false | .reset => false | _ => true
-      let rs := items.filterMap fun it => match it with | .dlv d => some (deliveryReason v d) | _ => none
+        | .dlv d => d.valid v | .dlv2 d => d.valid v | .ev (.read _) => false | .reset => false | _ => true
+      let rs := items.filterMap fun it => match it with
+        | .dlv d => some (deliveryReason v d) | .dlv2 d => some (delivery2Reason v d) | _ => none
+      let sc := srun v sinit (items.flatMap subEvents)
       let reasons := if rs.isEmpty then "." else ",".intercalate rs
       let c := (items.foldl (runItem v) tinit).c
       let sp := items.foldl specStep ⟨Gen.Netconf.initialMessageID, none, 0, [], []⟩
       let pend := match c.pending with | some id => toString id | none => "-"
-      s!"{b2s dom} {reasons} {showResults c.results} {pend} {showResults sp.results}"
+      s!"{b2s dom} {reasons} {showResults c.results} {pend} {showResults sp.results} {showGot sc.got}"
     | _, _ => "bad-op"
   | _ => "bad-op"
 
